@@ -3,7 +3,7 @@ ENTRY = dict(
     rule="every parrot UTLSIdToSpec accepts (the PSK parrots as resuming hellos: their spec with a filled FakePreSharedKeyExtension), n "
          "randomized fingerprints and 2n generated custom specs cycling through the shapes tls13 / legacy (TLSVersMin/Max in TLS 1.0..1.2, no "
          "supported_versions) / legacy-sv (supported_versions without 1.3) / scsv (suite lists with 0x5600, 0x00ff, unknown code points) / "
-         "psk-padding (BoringPadding + non-empty pre_shared_key in the padding range) / psk, key_share lists of five shapes with GREASE key_exchange of 1/2/3/8/32 bytes and GREASE extension bodies of 0/1/4 bytes, record-layer version varied up to the "
+         "psk-padding (BoringPadding + non-empty pre_shared_key in the padding range) / psk, ech (GREASE ECH with an encapsulated key of 32/65/97/133 bytes or generated, payload lengths 1..300, every KDF/AEAD; also in the general extension pool), key_share lists of five shapes with GREASE key_exchange of 1/2/3/8/32 bytes and GREASE extension bodies of 0/1/4 bytes, record-layer version varied up to the "
          "legacy_version; each built by the code for server name A, fingerprinted under {none, AllowBluntMimicry+AlwaysAddPadding, "
          "RealPSKResumption} (all three for parrots, in turn otherwise), re-applied to a HelloCustom connection (OmitEmptyPsk) with a server "
          "name B of the same length, rebuilt, fingerprinted again and rebuilt again (second generation). Go-side oracle on every round trip: "
